@@ -53,11 +53,11 @@ class TransformAnnotation(ast.NodeTransformer):
         """Transform a [`ast.BinOp`][] to [`typing.Union`][]."""
         # Ignore anything but a bitwise OR `|`
         if not isinstance(node.op, ast.BitOr):
-            return node
+            return self.generic_visit(node)
         # Build a stack of args to the bitor
         args = collections.deque([node.right])
         left = node.left
-        while isinstance(left, ast.BinOp):
+        while isinstance(left, ast.BinOp) and isinstance(left.op, ast.BitOr):
             args.appendleft(left.right)
             left = left.left
         args.appendleft(left)
